@@ -38,7 +38,7 @@ impl UintConvert<U512> for U256 { fn convert_into(&self) -> (U512, bool) { (U512
 impl UintConvert<U256> for U512 { fn convert_into(&self) -> (U256, bool) { (U256(self.0 as u32), self.0 > u32::MAX as u64) } }
 #[cfg(kani)] fn any_f64() -> f64 { kani::any() }
 #[cfg(not(kani))] fn any_f64() -> f64 { 0.5 }
-pub trait MFloat { fn mpowf(self, e: f64) -> f64; fn mlog(self, base: f64) -> f64; }
+pub trait MFloat { fn mpowf(self, e: f64) -> f64; fn mlog(self, base: f64) -> f64; fn mceil(self) -> f64; }
 impl MFloat for f64 {
     /// pow: for 0 < base < 1: exponent > 0 gives a value in [0, 1) (may underflow to 0), exponent 0 gives 1, exponent < 0 gives >= 1; otherwise arbitrary
     fn mpowf(self, e: f64) -> f64 {
@@ -53,7 +53,11 @@ impl MFloat for f64 {
         #[cfg(kani)] { if base > 0.0 && base < 1.0 { if self > 0.0 && self < 1.0 { kani::assume(r > 0.0); } else if self == 1.0 { kani::assume(r == 0.0); } else if self > 1.0 { kani::assume(r < 0.0); } } }
         r
     }
+    /// the real ceil (bit-precise in CBMC); its result is recorded
+    fn mceil(self) -> f64 { let r = self.ceil(); unsafe { LAST_CEIL = Some(r); } r }
 }
+/// ghost: the value of the last `ceil` call - in estimate_samples_count the FlyClient bound m before its cast to a block count
+pub static mut LAST_CEIL: Option<f64> = None;
 pub struct ThreadRng;
 pub fn thread_rng() -> ThreadRng { ThreadRng }
 impl ThreadRng { pub fn gen_range(&mut self, r: std::ops::Range<f64>) -> f64 { let x = any_f64(); #[cfg(kani)] kani::assume(x >= r.start && x < r.end); x } }
@@ -76,7 +80,18 @@ mod harness {
         let blocks: u64 = kani::any(); let last_n: u64 = kani::any(); let k: f64 = kani::any(); let lambda: u32 = kani::any();
         let c = estimate_samples_count(blocks, last_n, k, lambda);
         if blocks <= last_n { assert!(c == 0, "SPEC sampling: samples requested although at most last-N blocks are missing"); }
-        else { assert!(c >= 1 && c <= blocks - last_n, "SPEC sampling: samples count outside [1, blocks - last_n]"); }
+        else {
+            assert!(c >= 1 && c <= blocks - last_n, "SPEC sampling: samples count outside [1, blocks - last_n]");
+            // the FlyClient bound m = ceil(lambda / log_{1/2}(1 - 1/k)) with the value the (unmodelled) logarithm returned: the request carries m samples minus the
+            // last-N blocks that are fetched anyway - discounted ONCE - and never more than the blocks that exist
+            if let Some(mc) = unsafe { LAST_CEIL } {
+                let m = mc as u64;
+                let want = if m <= last_n { 1 } else if m > blocks { blocks - last_n } else { m - last_n };
+                assert!(c >= want, "SPEC sampling: fewer samples than the FlyClient bound requires after discounting the last-N blocks once");
+                assert!(c == want, "SPEC sampling: samples count differs from max(1, min(bound, blocks) - last_n)");
+                kani::cover!(m > blocks && blocks - last_n < last_n, "the bound exceeds a short gap");
+            }
+        }
         kani::cover!(c > 1000, "many samples");
     }
     fn sample_blocks_wellformed<const EXTRA: u64>() {
